@@ -230,6 +230,7 @@ def gen_jobs(ctx, name, b, quick):
         for o, m in sel:
             jobs.append((name, [('flip', d, o, m)], base, 1, False))
     # whole-message operations
+    import c04_proxy as P
     nmsg = {d: len(tr[d]['msgs']) for d in ('c2s', 's2c')}
     for d in ('c2s', 's2c'):
         for i in range(nmsg[d]):
@@ -237,6 +238,10 @@ def gen_jobs(ctx, name, b, quick):
             jobs.append((name, [('dup', d, i)], base, 1, False))
             if i + 1 < nmsg[d]:
                 jobs.append((name, [('swap', d, i)], base, 1, False))
+            for k in sorted(P.INJECT):
+                if quick and (i > 1 or k not in ('warning_alert', 'ccs', 'hello_request', 'heartbeat')):
+                    continue
+                jobs.append((name, [('inject', d, i, k)], base, 1, False))
     # semantic rewrites: every rewrite on every hello of the flow, plus combined two-sided attacks
     import c04_proxy as P
     n_ch = len([m for m in tr['c2s']['msgs'] if m[:2] == '01'])
@@ -555,7 +560,8 @@ def run(ctx):
     else:
         tie_broken = tie_broken or ('model does not compile: %s' % res['failing'])
     ctx.cov['rule'] = ('one case = one handshake between live endpoints with one attacker action: XOR of one byte of a plaintext '
-                       'record (header included; %s), drop/duplicate/swap of one plaintext handshake message, or a re-serialised '
+                       'record (header included; %s), drop/duplicate/swap of one plaintext handshake message, insertion of an alert/CCS/empty/HelloRequest/unknown/heartbeat record in front of '
+                       'one, or a re-serialised '
                        'rewrite of a hello (%d ClientHello and %d ServerHello rewrites + %d two-sided combinations) for %d scenarios '
                        '(SSLv3..TLS1.3 x RSA/DHE/ECDHE/SRP/anon/ECDSA, HRR, PSK, session-id/ticket/TLS1.3 resumption, SCSV); '
                        'distinct = (scenario, action class, both outcomes)'
